@@ -415,7 +415,7 @@ func exploreCases(o *hx.Out) {
 	for _, l := range lines {
 		o.Case("explore", true, l, l+" = ok")
 	}
-	o.Case("disc", true, "disc", "disc = ok ok ok ok ok ok")
+	o.Case("disc", true, "disc", "disc = ok")
 }
 
 type plClient struct {
